@@ -397,7 +397,7 @@ type refreshSim struct {
 	curTimer       *timer
 	refreshedSince int // worker refreshes since the last After
 	pendingErr     error
-	made map[*kernel.Task]madeCtx // constructed and not yet used, per calling goroutine
+	made           map[*kernel.Task]madeCtx // constructed and not yet used, per calling goroutine
 
 	shutdownInvoked  bool
 	shutdownReturned bool
@@ -417,10 +417,10 @@ type refreshSim struct {
 	inRefresh     bool
 	fired         int
 	shutdownAfter int
-	errPool          []error
-	ctxSeq           int
-	simTime          time.Duration
-	nRefresh         int
+	errPool       []error
+	ctxSeq        int
+	simTime       time.Duration
+	nRefresh      int
 }
 
 func (s *refreshSim) fail(class, msg string) { s.k.Fail(class, "RefreshWorker", msg) }
